@@ -389,6 +389,11 @@ class Count(Hooks):
         super().pre_iteration(step, level_number)
         CALLS['iters'][step.__dict__['_c14_attempt']] += 1
 
+    def post_sweep(self, step, level_number):
+        super().post_sweep(step, level_number)
+        L = step.levels[level_number]
+        CALLS.setdefault('sweeps', []).append((step.__dict__['_c14_attempt'], float(L.time), int(level_number), int(step.status.iter), int(L.status.sweep), float(L.status.residual)))
+
     def post_step(self, step, level_number):
         super().post_step(step, level_number)
         a = step.__dict__['_c14_attempt']
@@ -447,7 +452,7 @@ def hist_case(rep, NP, MAXR, NSTEPS, FIRST, CRASH, prefix, shrink=False):
 
     def fn(c):
         CALLS.clear()
-        CALLS.update({'add': [], 'iters': {}, 'work': {}, 'post': [], 'attempt': 0})
+        CALLS.update({'add': [], 'iters': {}, 'work': {}, 'post': [], 'attempt': 0, 'sweeps': [], 'solves': {}})
         r = c09.hist_run(c, NP, MAXR, NSTEPS, FIRST, CRASH, extra_hooks=[SetEst, LogEmbeddedErrorEstimatePostIter, LogWork, LogSDCIterations, LogSolution, LogStepSize, LogGlobalErrorPostStep,
                                                                            LogLocalErrorPostStep, LogEmbeddedErrorEstimate, LogGlobalErrorPostIter, LogLocalErrorPostIter, LogGlobalErrorPostRun, LogExtrapolationErrorEstimate, Count], shrink=opts)
         bad = []
@@ -542,6 +547,16 @@ def judge_stats(r, NP):
             a = [x for x in posts if round(x[1] + (x[6] if end else 0.0), 9) == round(float(k.time), 9)]
             if len(a) == 1 and k.num_restarts != a[0][5]:
                 bad.append(('restart-count-key', {'type': typ, 'time': k.time, 'iter': k.iter, 'key': k.num_restarts, 'step': a[0][5]}))
+    # recorded after every sweep on every level: one surviving record per sweep callback of an accepted attempt, keyed with the level, iteration and
+    # sweep number of THAT sweep, holding the residual of the level that was swept
+    accepted_att = {x[0] for x in posts}
+    calls = sorted((round(tm, 9), lvl, it, sw, val) for (att, tm, lvl, it, sw, val) in CALLS.get('sweeps', []) if att in accepted_att)
+    recs = filter_stats(st, type='residual_post_sweep', recomputed=False)
+    got = sorted((round(float(k.time), 9), int(k.level), int(k.iter), int(k.sweep), float(v)) for k, v in recs.items())
+    if [g[:4] for g in got] != [c[:4] for c in calls]:
+        bad.append(('one-record-per-sweep', {'type': 'residual_post_sweep', 'records (time, level, iter, sweep)': [g[:4] for g in got], 'sweep callbacks of accepted attempts': [c[:4] for c in calls]}))
+    elif got != calls:
+        bad.append(('sweep-record-value', {'type': 'residual_post_sweep', 'records': got, 'residual of the swept level at the callback': calls}))
     # no silent key collisions: two add_to_stats calls from different attempts must not hit the same key
     seen = {}
     for (hook, typ, tm, lvl, it, nr, att, proc, swp, psw) in CALLS['add']:
